@@ -333,11 +333,10 @@ class Ctx:
                 txt = (self.bdir / f).read_text()
             except FileNotFoundError:
                 continue
-            for m in re.finditer(r"(?:From\s+%s\s+)?Require\s+(?:Import\s+|Export\s+)?([^.]*(?:\.[A-Za-z_][\w.]*)*)\s*\.\s" % LOGICAL, txt):
-                pass
-            for m in re.finditer(r"^\s*(From\s+(\S+)\s+)?Require\s+(Import\s+|Export\s+)?(.+?)\.\s*$", txt, re.M):
-                frm = m.group(2)
-                for name in m.group(4).split():
+            txt_nc = re.sub(r"\(\*.*?\*\)", "", txt, flags=re.S)
+            for m in re.finditer(r"(?:From\s+(\S+)\s+)?Require\s+(?:Import\s+|Export\s+)?(.*?)\.\s", txt_nc, re.S):
+                frm = m.group(1)
+                for name in m.group(2).split():
                     cands = []
                     if frm:
                         cands.append(frm + "." + name)
@@ -347,11 +346,10 @@ class Ctx:
                         if c in logical_to_file:
                             todo.append(logical_to_file[c])
                             break
-                        # suffix match (Require Import Model.Pidfile.)
+                    else:
                         hits = [v for k, v in logical_to_file.items() if k.endswith("." + name)]
                         if len(hits) == 1:
                             todo.append(hits[0])
-                            break
         return sorted(seen)
 
     def _count_obligations(self, props_file, ok):
